@@ -11,10 +11,13 @@ hooks_commits = []
 hp = os.path.join(ROOT, "hooks-commits.txt")
 if os.path.exists(hp):
     hooks_commits = [l.split()[0] for l in open(hp) if l.strip() and not l.startswith("#")]
+enabled = set(open(os.path.join(ROOT, "props", "ENABLED")).read().split())
 checks, na = [], []
 for p in props:
     pid = p["id"]
     s = specs.get(pid)
+    if s and pid not in enabled:
+        s = dict(s, disabled="check under construction in this revision (not yet validated on the unchanged tree); design in DESIGN.md §3 (%s)" % pid)
     if not s or s.get("disabled"):
         na.append({"property_id": pid, "reason": (s or {}).get("disabled") or "no check built yet in this revision; design in DESIGN.md §3 (%s)" % pid})
         continue
